@@ -44,6 +44,7 @@ fn main() {
         Some("signals") => m_signals::run(),
         Some("transient") => m_transient::run(),
         Some("seq") => m_seq::run(args.get(2).expect("scenario file")),
+        Some("seqtimed") => m_seq::run_timed(args.get(2).expect("scenario file"), args.get(3).and_then(|s| s.parse().ok()).unwrap_or(300)),
         _ => {
             eprintln!("usage: harness <token|...>");
             std::process::exit(2);
